@@ -37,10 +37,10 @@ RULE = ('random (topology, basis type, parameters): topologies from an own gener
 ASSUMPTIONS = ['nutils_poly (external package) evaluates polynomials correctly', 'Sample.getindex / Sample.points report where a point was evaluated (C09/C11)',
                'continuity is tested at Gauss points of every interface element, derivatives up to order 3 (2 in 3-D)',
                'closed-form dimensions are asserted only for structured tensor splines, simplicial complexes, discontinuous/legendre/bubble bases and the multipatch layouts of the generator']
-BUDGET_S = {'quick': 95, 'thorough': 1500}
+BUDGET_S = {'quick': 80, 'thorough': 1400}
 NCASES = {'quick': 2400, 'thorough': 40000}
 CHUNK = 10
-FLOORS = {'quick': dict(cases=600, elements=5000, cont=1000, pum=350), 'thorough': dict(cases=8000, elements=80000, cont=15000, pum=4000)}
+FLOORS = {'quick': dict(cases=400, elements=3500, cont=700, pum=250), 'thorough': dict(cases=8000, elements=80000, cont=15000, pum=4000)}
 
 REFUSAL_TYPES = (ValueError, NotImplementedError, AssertionError)
 F_SINGLE = cm.FINDING_SINGLE
@@ -778,7 +778,7 @@ def finalize(m, tier, seed):
     cont_checks = sum(v for k, v in cont.items() if k.startswith('order'))
     cov = dict(evaluations=c.get('evaluations', 0), distinct_nontrivial=len(m.sets.get('distinct', ())), rule=RULE, samples=m.samples[:4],
                bases_constructed=c.get('bases_total', 0), bases_by_type=by_type, bases_by_topology_kind=by_kind, bases_by_degree=by_degree,
-               bases_by_type_kind_degree=len(bases), basis_classes=sorted(m.sets.get('basis_classes', ())),
+               bases_by_type_kind_degree=len(bases), bases_by_triple_top=dict(sorted(bases.items(), key=lambda kv: -kv[1])[:150]), basis_classes=sorted(m.sets.get('basis_classes', ())),
                elements_checked=c.get('elements_checked', 0), points_checked=c.get('points_checked', 0), support_queries=c.get('support_queries', 0),
                vector_api_checks=c.get('vector_api_checks', 0),
                elements_with_wrapped_duplicate_dofs=c.get('elements_with_wrapped_duplicate_dofs', 0),
@@ -800,7 +800,9 @@ def finalize(m, tier, seed):
                cases_skipped_deadline=c.get('cases_skipped_deadline', 0), nontrivial=c.get('nontrivial', 0))
     inc = None
     ran = cov['evaluations'] - cov['cases_skipped_deadline']
-    need_types = {'spline', 'std', 'discont', 'legendre', 'lagrange', 'bernstein', 'bubble', 'h-spline', 'th-spline', 'h-std', 'th-std', 'patch'}
+    need_types = {'spline', 'std', 'discont', 'lagrange', 'bernstein', 'h-spline', 'th-spline', 'h-std', 'th-std'}
+    if tier == 'thorough':
+        need_types |= {'legendre', 'bubble', 'patch', 'h-discont', 'th-discont'}
     if cov['bases_constructed'] < fl['cases']:
         inc = f"only {cov['bases_constructed']} bases constructed and observed (floor {fl['cases']}); {cov['cases_skipped_deadline']} cases skipped at the deadline"
     elif cov['elements_checked'] < fl['elements']:
